@@ -308,7 +308,8 @@ ORACLES = {
             _oracle('order of the selected expressions: attributes listed before / after the variable they are taken from', 100,
                     1500, kind='select'),
             _oracle('order of the selected expressions: flattened element listed before its parent', 40, 400, kind='flatten',
-                    with_cond=False, select_parent=True, element_first=True, n=4)],
+                    with_cond=False, select_parent=True, element_first=True, n=4),
+            _oracle('operand order of or_ / and_ when one operand is also a selected output', 100, 1500, kind='reuse', both_roles=True)],
     'C11': [_oracle('infer(entity(T(a=x, b=y|y.attr, tag=const), conditions)): constants (None, falsy, iterable), falsy classes, '
                     'bodies with disjunction / negation, zero-solution bodies', 250, 4000, kind='infer'),
             _oracle('inference, conjunctive bodies only', 100, 1500, kind='infer', neg=False, depth=1)],
@@ -340,7 +341,11 @@ ORACLES = {
                     rules=5, depth=2, abandon=True),
             _oracle('the same over two variables', 300, 5000, kind='rdrtree', nvars=2, rules=5, depth=3, n=3, abandon=True),
             _oracle('a rule with a consequent rule (next_rule), evaluated three times, also after an abandoned evaluation', 150,
-                    2000, kind='nextrule', abandon=True)],
+                    2000, kind='nextrule', abandon=True),
+            _oracle('one expression object shared by two queries: a condition in the first, a comparison operand in the second', 100,
+                    1500, kind='reuse'),
+            _oracle('one expression that is a selected output AND a condition in the same query, evaluated twice', 100, 1500,
+                    kind='reuse', both_roles=True)],
     'C05': [_oracle('result cache on vs off, first evaluation and re-evaluation', 250, 4000, kind='cache'),
             _oracle('result cache on vs off, literal-free conditions (the ones that hit the operator caches)', 250, 4000, kind='cache',
                     nolit=True),
@@ -393,6 +398,10 @@ def standins(prop, tier):
                     'bound': 'exhaustive: up to 3 (quick) / 4 (thorough) additions from a pool of 6 constraint objects, one discard, '
                              '5 lookups', 'args': {'max_adds': 3 if tier == 'quick' else 4}, 'timeout': 600})
     if prop == 'C20':
+        out.append({'name': 'C20_cache', 'label': 'IndexedCache with values wrapped the way the library wraps them (HashedValue(v)), alphabet '
+                                                  '-1, -2, True, 1 (equal hashes, different values), exhaustive',
+                    'bound': 'exhaustive: 2 keys, alphabet [-1, -2, True, 1], <= 2 insertions, every lookup',
+                    'args': {'nkeys': 2, 'max_inserts': 2, 'alphabet': [-1, -2, True, 1], 'library_ids': True, 'budget_s': 300}, 'timeout': 900})
         out.append({'name': 'C20_cache', 'label': 'IndexedCache insert/check/retrieve, exhaustive',
                     'bound': 'exhaustive: 2 keys (quick) / 3 keys (thorough), alphabet 2, <= 3 insertions (empty binding = flat '
                              'store included), a clear() at every position or none, every lookup',
